@@ -260,9 +260,16 @@ def metavars_arms(ctx, py: PyRepo):
     loops = [n for n in ast.walk(fn) if isinstance(n, ast.For)]
     ok = False
     if len(loops) == 1 and ast.unparse(loops[0].iter) == 'self.pattern.metavars()' and isinstance(loops[0].target, ast.Name):
+        from ..core import astpaths
         v = loops[0].target.id
-        src = ast.unparse(loops[0])
-        ok = f'if {v} in self.inst' in src and f'self.inst[{v}].metavars()' in src and f'.add({v})' in src
+        sps = [sp for sp in astpaths.paths(loops[0].body) if sp.end in ('fall', 'continue')]
+        ok = len(sps) >= 2
+        for sp in sps:
+            bound = sp.holds(f'{v} in self.inst')
+            acts = ' ; '.join(ast.unparse(a) for a in sp.actions)
+            plug, own = f'self.inst[{v}].metavars()' in acts, (f'.add({v})' in acts or f'{{{v}}}' in acts)
+            if bound is None or (bound and not (plug and not own)) or (not bound and not (own and not plug)):
+                ok = False
     delegated = any(isinstance(n, ast.Return) and n.value is not None and ast.unparse(n.value) == 'self.simplify().metavars()' for n in ast.walk(fn))
     ctx.ob('metavars-arm', 'Instantiate', ok or delegated,
            'Instantiate.metavars() must replace each metavariable of the body by the metavariables of its plug (or keep it when unbound), '
